@@ -131,7 +131,7 @@ PROPS = {
             'precondition fits(): the transfer performative alone (in each of its three forms) is smaller than the frame body; a larger one is outside the contract (usize underflow / no progress)',
             'enc(t) is the uninterpreted output of the derive-generated serializer; axiom |enc(t[more:=false])| <= |enc(t[more:=true])|',
             'Transport::start_send is under contract in unit TRANSPORT with Pin erased and FramedWrite / FrameEncoder::encode as stand-ins; lemma_cut_points (FRAMEENC) + [C06.transport.cut-points] give cut points == frame boundaries for split transfers',
-            'a NON-transfer performative whose encoding exceeds the frame (oversize Open/Attach) is cut by start_send into max-sized pieces each sent as its own frame: [C06.transport.*] hold for it byte-wise, but the pieces are not AMQP frames (DESIGN D9; no contract decides it, nothing establishes |wire(item)| <= max for non-transfers)',
+            'a NON-transfer performative whose encoding exceeds the frame is refused with FramingError since fix 542518b ([C06.transport.non-transfer-whole]); nothing establishes that the engines handle that error gracefully (the connection engine treats it as a transport error)',
             'decoding under arbitrary read fragmentation is tokio_util LengthDelimitedCodec + FramedRead (third party), not verified']),
     'C01': dict(
         units=['FRAMEENC', 'SESSION', 'SENDSPLIT', 'LINK', 'REASM', 'SESSENG', 'CONNENG'],
